@@ -122,6 +122,114 @@ theorem chain_lines {P : Params α} {items : List (Item α)} {lineW : α} {tol :
     | fallback _ q rest' g0 => cases g0
   | fallback c p rest h0 => cases h0
 
+/-- the breakpoint `d` was made by the overflow fallback: its `Width` is measured like every other
+breakpoint's, its `Ratio` is reported as 0 and its class as 1 -/
+def LineFb (P : Params α) (items : List (Item α)) (prev : Option Nat) (d : ND α) : Prop :=
+  (∃ it, items[d.pos]? = some it) ∧ d.ratio = k 0 ∧ d.fit = 1 ∧
+    d.width = widthAt items d.pos - (afterSums P items prev).1
+
+/-- `LineOK` or `LineFb` for every breakpoint of a list given latest first -/
+def LinesAnyr (P : Params α) (items : List (Item α)) (lineW : α) (tol : Option α) : List (ND α) → Prop
+  | [] => True
+  | [d] => LineOK P items lineW tol none d ∨ LineFb P items none d
+  | d :: p :: rest => (LineOK P items lineW tol (some p.pos) d ∨ LineFb P items (some p.pos) d) ∧
+      LinesAnyr P items lineW tol (p :: rest)
+
+/-- the width every returned breakpoint reports: running width at the break (plus the width of a
+penalty) minus the sums after the previous break -/
+def WidthsOKr (P : Params α) (items : List (Item α)) : List (ND α) → Prop
+  | [] => True
+  | [d] => d.width = widthAt items d.pos - (afterSums P items none).1
+  | d :: p :: rest => d.width = widthAt items d.pos - (afterSums P items (some p.pos)).1 ∧
+      WidthsOKr P items (p :: rest)
+
+theorem linesAny_widths {P : Params α} {items : List (Item α)} {lineW : α} {tol : Option α} :
+    ∀ l : List (ND α), LinesAnyr P items lineW tol l → WidthsOKr P items l := by
+  intro l
+  induction l with
+  | nil => intro _; exact True.intro
+  | cons d rest ih =>
+    intro h
+    cases rest with
+    | nil =>
+      rcases h with ⟨_, _, _, _, _, _, hw⟩ | ⟨_, _, _, hw⟩ <;> exact hw
+    | cons p rest' =>
+      obtain ⟨h1, h2⟩ := h
+      refine ⟨?_, ih h2⟩
+      rcases h1 with ⟨_, _, _, _, _, _, hw⟩ | ⟨_, _, _, hw⟩ <;> exact hw
+
+theorem legalAt_some {P : Params α} {items : List (Item α)} {b : Nat} (h : legalAt P items b = true) :
+    ∃ it, items[b]? = some it := by
+  unfold legalAt at h
+  cases hb : items[b]? with
+  | none => rw [hb] at h; cases h
+  | some it => exact ⟨it, rfl⟩
+
+/-- sums carried by the head of a well-formed chain: zero for the root, `Σ after` otherwise -/
+theorem chain_head_sums {P : Params α} {items : List (Item α)} {lineW : α} {tol : Option α} {fb : Bool}
+    {p : ND α} {rest : List (ND α)} (h : ChainOK P items lineW tol fb (p :: rest)) :
+    (rest = [] ∧ p = rootD) ∨ (rest ≠ [] ∧ (p.w, p.y, p.z) = sumsAfter P items p.pos) := by
+  cases h with
+  | root => exact Or.inl ⟨rfl, rfl⟩
+  | normal _ q r it g1 g2 g3 g4 g5 => exact Or.inr ⟨by simp, g5⟩
+  | fallback _ q r g0 g1 g2 g3 g4 => exact Or.inr ⟨by simp, g4⟩
+
+theorem clampRatio_zero (P : Params α) (c : ND α) (h : c.ratio = k 0) : (clampRatio P c).ratio = k 0 := by
+  unfold clampRatio; split
+  · rfl
+  · exact h
+
+theorem clampRatio_fit (P : Params α) (c : ND α) : (clampRatio P c).fit = c.fit := by
+  unfold clampRatio; split <;> rfl
+
+/-- every returned breakpoint, also after an overflow, reports the measures of its line -/
+theorem chain_lines_any {P : Params α} {items : List (Item α)} {lineW : α} {tol : Option α} {fb : Bool}
+    {ch : List (ND α)} (h : ChainOK P items lineW tol fb ch) :
+    LinesAnyr P items lineW tol (fixNonRoot P ch) := by
+  induction h with
+  | root => exact True.intro
+  | normal c p rest it h1 h2 h3 h4 h5 h6 h7 h8 h9 h10 ih =>
+    rcases chain_head_sums h10 with ⟨hr, hp⟩ | ⟨hr, hp⟩
+    · subst hr; subst hp
+      show LineOK P items lineW tol none _ ∨ _
+      left
+      refine ⟨it, c.ratio, ?_, ?_, h8, clampRatio_ratio P c, ?_⟩
+      · simpa [clampRatio_pos] using h4
+      · simpa [clampRatio_pos, afterSums, rootD] using h7
+      · simp only [clampRatio_pos, afterSums, rootD, h6]
+    · cases rest with
+      | nil => exact absurd rfl hr
+      | cons q rest' =>
+        have hw : p.w = (sumsAfter P items p.pos).1 := congrArg (·.1) hp
+        have hy : p.y = (sumsAfter P items p.pos).2.1 := congrArg (·.2.1) hp
+        have hz : p.z = (sumsAfter P items p.pos).2.2 := congrArg (·.2.2) hp
+        refine ⟨Or.inl ?_, ih⟩
+        simp only [clampRatio_pos]
+        refine ⟨it, c.ratio, ?_, ?_, h8, clampRatio_ratio P c, ?_⟩
+        · simpa [clampRatio_pos] using h4
+        · simp only [afterSums, ← hw, ← hy, ← hz]; exact h7
+        · simp only [afterSums, ← hw, h6]
+  | fallback c p rest h0 h1 h2 h3 h4 h5 h6 h7 h8 h9 ih =>
+    obtain ⟨it, hit⟩ := legalAt_some h1
+    rcases chain_head_sums h9 with ⟨hr, hp⟩ | ⟨hr, hp⟩
+    · subst hr; subst hp
+      show _ ∨ LineFb P items none _
+      right
+      refine ⟨⟨it, by simpa [clampRatio_pos] using hit⟩, clampRatio_zero P c h6, ?_, ?_⟩
+      · show (clampRatio P c).fit = 1
+        rw [clampRatio_fit]; exact h7
+      · simp only [clampRatio_pos, afterSums, rootD, h5]
+    · cases rest with
+      | nil => exact absurd rfl hr
+      | cons q rest' =>
+        have hw : p.w = (sumsAfter P items p.pos).1 := congrArg (·.1) hp
+        refine ⟨Or.inr ?_, ih⟩
+        simp only [clampRatio_pos]
+        refine ⟨⟨it, by simpa [clampRatio_pos] using hit⟩, clampRatio_zero P c h6, ?_, ?_⟩
+        · show (clampRatio P c).fit = 1
+          rw [clampRatio_fit]; exact h7
+        · simp only [afterSums, ← hw, h5]
+
 /-- Every successful run on a paragraph that ends in a forced legal break returns the (reversed)
 parent walk of one node of the final active list of a completed pass that satisfies the invariant. -/
 theorem run_chain (hrefl : ∀ a : α, (a == a) = true) (P : Params α) (items : List (Item α)) (lineW : α)
